@@ -63,7 +63,10 @@ Fld(n, t, tag, emb) == [n |-> n, t |-> t, tag |-> tag, emb |-> emb]
 Struct(fs)      == [k |-> "struct", fs |-> fs]
 Meth(n, ps, rs, va) == [n |-> n, ps |-> ps, rs |-> rs, va |-> va]
 Iface(ms, es)   == [k |-> "iface", ms |-> ms, es |-> es]  \* anonymous interface literal
-Union(ts)       == [k |-> "union", ts |-> ts]    \* constraint ~t1 | ~t2 (only as a type-parameter constraint)
+Union(ts)       == [k |-> "union", ts |-> ts]    \* constraint element ~t1 | ~t2; a term Plain(t) is spelled without the tilde
+Plain(t)        == [k |-> "plain", e |-> t]
+\* a constraint with SEVERAL elements is an interface literal Iface(methods, elements) whose elements are `comparable`,
+\* unions / tilde terms (also over composite types mentioning imported packages), named constraints -- in source order
 
 BasicNames == {"int", "string", "bool", "float64", "byte", "rune", "uintptr", "complex128", "error", "any", "comparable",
                "uint8", "int64"}
@@ -100,6 +103,7 @@ RefPkgs(t) ==
     [] t.k = "func"   -> RefPkgsVars(t.ps) \cup RefPkgsVars(t.rs)
     [] t.k = "struct" -> UNION {RefPkgs(t.fs[i].t) : i \in 1..Len(t.fs)}
     [] t.k = "union"  -> UNION {RefPkgs(t.ts[i]) : i \in 1..Len(t.ts)}
+    [] t.k = "plain"  -> RefPkgs(t.e)
     [] t.k = "iface"  -> UNION {RefPkgsVars(t.ms[i].ps) \cup RefPkgsVars(t.ms[i].rs) : i \in 1..Len(t.ms)}
                          \cup UNION {RefPkgs(t.es[i]) : i \in 1..Len(t.es)}
 
@@ -117,6 +121,7 @@ BareIdents(t, inpkg) ==
     [] t.k = "func"   -> BareIdentsVars(t.ps, inpkg) \cup BareIdentsVars(t.rs, inpkg)
     [] t.k = "struct" -> UNION {BareIdents(t.fs[i].t, inpkg) : i \in 1..Len(t.fs)}
     [] t.k = "union"  -> UNION {BareIdents(t.ts[i], inpkg) : i \in 1..Len(t.ts)}
+    [] t.k = "plain"  -> BareIdents(t.e, inpkg)
     [] t.k = "iface"  -> UNION {BareIdentsVars(t.ms[i].ps, inpkg) \cup BareIdentsVars(t.ms[i].rs, inpkg) : i \in 1..Len(t.ms)}
                          \cup UNION {BareIdents(t.es[i], inpkg) : i \in 1..Len(t.es)}
 
@@ -133,6 +138,7 @@ Kinds(t) ==
     [] t.k = "func"   -> {IF t.va THEN "func-variadic" ELSE "func"} \cup KindsVars(t.ps) \cup KindsVars(t.rs)
     [] t.k = "struct" -> {"struct"} \cup UNION {Kinds(t.fs[i].t) : i \in 1..Len(t.fs)}
     [] t.k = "union"  -> {"union"} \cup UNION {Kinds(t.ts[i]) : i \in 1..Len(t.ts)}
+    [] t.k = "plain"  -> {"plain"} \cup Kinds(t.e)
     [] t.k = "iface"  -> {"iface"} \cup UNION {KindsVars(t.ms[i].ps) \cup KindsVars(t.ms[i].rs) : i \in 1..Len(t.ms)}
                          \cup UNION {Kinds(t.es[i]) : i \in 1..Len(t.es)}
 
@@ -156,6 +162,7 @@ Show(t) ==
     [] t.k = "struct" -> "struct(" \o ShowSeq([i \in 1..Len(t.fs) |-> t.fs[i].t]) \o (IF \E i \in 1..Len(t.fs) : t.fs[i].emb THEN ";emb" ELSE "")
                                    \o (IF \E i \in 1..Len(t.fs) : t.fs[i].tag # "" THEN ";tag" ELSE "") \o ")"
     [] t.k = "union"  -> "union(" \o ShowSeq(t.ts) \o ")"
+    [] t.k = "plain"  -> "plain(" \o Show(t.e) \o ")"
     [] t.k = "iface"  -> "iface(" \o ShowSeq([i \in 1..Len(t.ms) |-> Fn(t.ms[i].ps, t.ms[i].rs, t.ms[i].va)]) \o ";" \o ShowSeq(t.es) \o ")"
 
 \* names of types of the package under test a term mentions (the source file must declare them)
@@ -177,6 +184,7 @@ Subst(t, env) ==
     [] t.k = "func"   -> [t EXCEPT !.ps = SubstVars(t.ps, env), !.rs = SubstVars(t.rs, env)]
     [] t.k = "struct" -> [t EXCEPT !.fs = [i \in 1..Len(t.fs) |-> [t.fs[i] EXCEPT !.t = Subst(t.fs[i].t, env)]]]
     [] t.k = "union"  -> [t EXCEPT !.ts = [i \in 1..Len(t.ts) |-> Subst(t.ts[i], env)]]
+    [] t.k = "plain"  -> [t EXCEPT !.e = Subst(t.e, env)]
     [] t.k = "iface"  -> [t EXCEPT !.ms = [i \in 1..Len(t.ms) |-> SubstMeth(t.ms[i], env)],
                                   !.es = [i \in 1..Len(t.es) |-> Subst(t.es[i], env)]]
 
@@ -235,14 +243,29 @@ PickByName(ms, n) == CHOOSE m \in ms : m.n = n
 (* C02: admissible type arguments.  A bounded model set per constraint; the  *)
 (* mock instantiated with any of them must be assignable to the instantiated *)
 (* source interface.                                                         *)
-ConstraintModels(cn) ==
-  CASE cn.k = "basic" /\ cn.n = "any" -> {B("int"), B("string"), N("SRC", "LT"), Slice(N("FX", "T")), Ptr(N("SRC", "LT"))}
-    [] cn.k = "basic" /\ cn.n = "comparable" -> {B("int"), B("string"), N("SRC", "LE")}
-    [] cn.k = "basic" -> {cn}
-    [] cn.k = "union" -> SeqToSet(cn.ts) \cup (IF B("int") \in SeqToSet(cn.ts) THEN {N("SRC", "LE")} ELSE {})
-    [] cn.k = "iface" -> {N("SRC", "LS")}                          \* interface{ String() string }
-    [] cn.k = "named" /\ cn.n = "Stringer" -> {N("SRC", "LS")}
-    [] cn.k = "named" -> {B("int"), B("string"), N("SRC", "LE")}    \* C, LC, Ordered: ~int | ~string | ...
+\* candidate type arguments and what the satisfaction relation needs to know about them
+Candidates == {B("int"), B("string"), B("uint8"), N("SRC", "LE"), N("SRC", "LT"), N("SRC", "LS"), N("SRC", "LSI"), N("FX", "E"),
+               Ptr(N("SRC", "LT")), Slice(N("FX", "T")), Slice(N("Stime", "Duration")), Slice(N("SRC", "LT")), Slice(N("FY", "T")),
+               Map(B("string"), Ptr(N("FX", "T"))), Fn(<<V("", N("Scontext", "Context"))>>, <<V("", B("error"))>>, FALSE)}
+UnderlyingOf(t) == IF t.k = "named" THEN (IF t.n \in {"LE", "LSI", "E"} THEN B("int") ELSE [k |-> "struct-decl", n |-> t.n]) ELSE t
+IsComparableType(t) == t.k \in {"basic", "named", "ptr"}
+HasStringMethod(t) == t.k = "named" /\ t.n \in {"LS", "LSI"}
+\* named constraints of the helper packages / the package under test, as element lists
+NamedConstraint(n) ==
+  CASE n \in {"C", "LC"} -> Iface(<< >>, <<Union(<<B("int"), B("string")>>)>>)
+    [] n = "Ordered"  -> Iface(<< >>, <<Union(<<B("int"), B("int64"), B("float64"), B("string")>>)>>)
+    [] n = "Number"   -> Iface(<< >>, <<Union(<<B("int"), B("int64")>>)>>)
+    [] n = "LStr"     -> Iface(<< >>, <<Union(<<B("string")>>)>>)
+    [] n = "Stringer" -> Iface(<<Meth("String", << >>, <<V("", B("string"))>>, FALSE)>>, << >>)
+\* does type t satisfy constraint (element) cn?  A constraint with several elements is the INTERSECTION of its elements.
+RECURSIVE Sat(_, _)
+Sat(t, cn) ==
+  CASE cn.k = "basic" -> IF cn.n = "any" THEN TRUE ELSE IF cn.n = "comparable" THEN IsComparableType(t) ELSE t = cn
+    [] cn.k = "union" -> \E i \in 1..Len(cn.ts) : IF cn.ts[i].k = "plain" THEN t = cn.ts[i].e ELSE UnderlyingOf(t) = cn.ts[i]
+    [] cn.k = "named" -> Sat(t, NamedConstraint(cn.n))
+    [] cn.k = "iface" -> /\ \A i \in 1..Len(cn.es) : Sat(t, cn.es[i])
+                         /\ (Len(cn.ms) > 0 => HasStringMethod(t))            \* the only method constraints use is String() string
+ConstraintModels(cn) == {t \in Candidates : Sat(t, cn)}
 RECURSIVE TargTuples(_)
 TargTuples(tps) == IF tps = << >> THEN {<< >>}
                    ELSE {<<a>> \o rest : a \in ConstraintModels(Head(tps).c), rest \in TargTuples(Tail(tps))}
